@@ -285,6 +285,15 @@ def plan_for(prop, tier, seed):
         p.families = [("testimage-display", True, "dev", lambda ids, rng: G.f_testimage_display(ids, rng, q))]
     else:
         raise ToolError("no plan for property %s" % prop)
+    if not q:
+        # thorough tier: the same programs on a release-like build (no overflow checks, no debug assertions): a
+        # debug-only panic is a silently wrapped value there, and both are violations of different clauses
+        REL = {"C01": ("tiny-rec",), "C02": ("tiny-oob", "oob-streams", "oob-rects"), "C03": ("long",), "C04": ("contig-tiny", "contig-rects"),
+               "C06": ("spi-grid",), "C07": ("parallel",), "C08": ("tiny-oob", "long"), "C09": ("init-grid",), "C10": ("reorient-tiny",),
+               "C16": ("scroll",), "C20": ("overhead",)}
+        for (name, batch, profile, g) in list(p.families):
+            if name in REL.get(prop, ()) and batch and profile == "dev":
+                p.families.append((name + "-release", True, "rel", g))
     return p
 
 
@@ -340,7 +349,7 @@ def execute_families(p, seed, workdir, only_build=None):
         to_run = [{k: v for k, v in sc.items() if not k.startswith("_")} for sc in uniq]
         lines = run.exec_scenarios(binary, to_run, workdir, name)
         t1 = time.time()
-        v, st, ds, gs = run.validate_traces(lines, workdir, name)
+        v, st, ds, gs = run.validate_traces(lines, workdir, name, profile=profile)
         t2 = time.time()
         log("[%s] family %s: %d scenarios, %d calls, exec %.1fs, validate %.1fs, %d verdict records"
             % (p.prop, name, len(uniq), st.get("calls", 0), t1 - t0, t2 - t1, len(v)))
